@@ -5,6 +5,7 @@ import Driver.C05
 import Driver.C06
 import Driver.C09
 import Driver.C10
+import Driver.C11
 import Driver.C12
 import Driver.C14
 import Driver.C15
@@ -25,6 +26,7 @@ def dispatch (line : String) : String :=
   | "C06" :: args => Driver.C06.handle args
   | "C09" :: args => Driver.C09.handle args
   | "C10" :: args => Driver.C10.handle args
+  | "C11" :: args => Driver.C11.handle args
   | "C12" :: args => Driver.C12.handle args
   | "C14" :: args => Driver.C14.handle args
   | "C15" :: args => Driver.C15.handle args
